@@ -372,43 +372,39 @@ func parseValues(s string) []*big.Int {
 }
 
 func tokenize(s string) []string {
-	var toks []string
-	cur := ""
-	inBar := false
-	for _, r := range s {
-		if inBar {
-			cur += string(r)
-			if r == '|' {
-				inBar = false
-				toks = append(toks, cur)
-				cur = ""
-			}
-			continue
-		}
+	toks := make([]string, 0, len(s)/4)
+	n := len(s)
+	i := 0
+	for i < n {
+		c := s[i]
 		switch {
-		case r == '|':
-			if cur != "" {
-				toks = append(toks, cur)
+		case c == ' ' || c == '\n' || c == '\t' || c == '\r':
+			i++
+		case c == '(' || c == ')':
+			toks = append(toks, s[i:i+1])
+			i++
+		case c == '|':
+			j := i + 1
+			for j < n && s[j] != '|' {
+				j++
 			}
-			cur = "|"
-			inBar = true
-		case r == '(' || r == ')':
-			if cur != "" {
-				toks = append(toks, cur)
-				cur = ""
+			if j < n {
+				j++
 			}
-			toks = append(toks, string(r))
-		case r == ' ' || r == '\n' || r == '\t' || r == '\r':
-			if cur != "" {
-				toks = append(toks, cur)
-				cur = ""
-			}
+			toks = append(toks, s[i:j])
+			i = j
 		default:
-			cur += string(r)
+			j := i
+			for j < n {
+				d := s[j]
+				if d == ' ' || d == '\n' || d == '\t' || d == '\r' || d == '(' || d == ')' {
+					break
+				}
+				j++
+			}
+			toks = append(toks, s[i:j])
+			i = j
 		}
-	}
-	if cur != "" {
-		toks = append(toks, cur)
 	}
 	return toks
 }
